@@ -11,8 +11,8 @@ CORE_SRCS = ('core/ctx.c', 'core/evts.c', 'core/main.c', 'core/mod.c', 'core/ps.
 TRUSTED = ['Coq 8.16.1 kernel (coqc, vm_compute; no native_compute)',
            'axioms: none (every Print Assumptions = Closed under the global context)',
            'extraction: ExtrOcamlBasic only, no Extract Constant/Inductive; hand-written OCaml glue extract/glue.ml + main_core.ml',
-           'harness/drv_core.c incl. its link-time wraps (epoll_wait order and scripted environment, timerfd_settime, close, m_mem_new), tools/*.py, gcc, ASan/UBSan',
-           'tools/consts_probe.c (regenerated coq/Consts.v); table slots and regexec results read from the real code per run']
+           'harness/drv_core.c incl. its link-time wraps (epoll_wait order and scripted environment, timerfd_settime, close, m_mem_new, pipe, pthread_join, m_thpool_add: every started task gets its own pool thread), tools/*.py, gcc, ASan/UBSan',
+           'tools/consts_probe.c (regenerated coq/Consts.v); tools/guards_scan.py (regenerated coq/Guards.v: syntactic scan of the guard macros of every public core function; GuardsModel.api_of maps scripted calls to C functions); table slots and regexec results read from the real code per run']
 ASSUME = ['the hand-written Gallina model (coq/CoreModel.v, CoreExec.v) corresponds to the C code only as far as the differential runs of this check exercise it',
           'epoll plugin only; timers/signals fire when the script says so (timerfd contract assumed); single context on one thread in this engine',
           'scripts in known-finding regions (model trace contains FAULT) are run only as named corpus cases']
@@ -22,7 +22,7 @@ STRUCT = ('mod ', 'tslot ', 'rem ', 'cb ', 'proc ', 'endproc', 'pipecap ')
 class CoreCheck(Check):
     driver = 'drv_core'
     driver_srcs = CORE_SRCS
-    driver_flags = ('-DLIBMODULE_LOG_CTX=CORE', '-Wl,--wrap=epoll_wait,--wrap=timerfd_settime,--wrap=close,--wrap=m_mem_new,--wrap=pipe,--wrap=pthread_join')
+    driver_flags = ('-DLIBMODULE_LOG_CTX=CORE', '-Wl,--wrap=epoll_wait,--wrap=timerfd_settime,--wrap=close,--wrap=m_mem_new,--wrap=pipe,--wrap=pthread_join,--wrap=m_thpool_add')
     driver_libs = ('-lpthread', '-ldl')
     model = 'core'
     trusted = TRUSTED
@@ -273,11 +273,11 @@ class C01(CoreProp):
         return mon_evt_only_running(case, ctr) + mon_running_count(case, ctr)
 
 class C02(CoreProp):
-    scenario = staticmethod(GC.gen_subs_case)
+    scenario = staticmethod(GC.gen_subs_or_flush_case)
     pid = 'C02'; props_file = 'Props_C02'; focus = {'ps'}
     proj = Proj(rets=('tell', 'publish', 'broadcast', 'pill'), cb=cb_ps, keep=('freedata',))
     rule = ('corpus + random programs biased to subscribe/tell/publish/broadcast (literal and regular-expression topics, auto-free '
-            'payloads, pause/stop/deregister between send and delivery) + subscription scenarios (one-shot / replaced / updated / removed subscriptions with a message in flight) + pipe-overflow bursts; non-trivial = distinct script delivering >= 2 messages')
+            'payloads, pause/stop/deregister between send and delivery) + subscription scenarios (one-shot / replaced / updated / removed subscriptions with a message in flight) + loop-stop flush scenarios (handlers run by the flush register / deregister other modules, pause or stop later recipients) + pipe-overflow bursts; non-trivial = distinct script delivering >= 2 messages')
     def monitors(self, case, ctr): return mon_messages(case, ctr)
     def nontrivial(self, case, ctr):
         return ctr is not None and sum(1 for l in ctr if l.startswith('cb ') and ' 0:' in l) >= 2
